@@ -128,12 +128,30 @@ enum Op {
     Vectored,
     /// `flush()`: hands nothing to the console and leaves the escape-sequence / character state alone
     Flush,
+    /// `write!` of a value whose `Display` emits the chunk character by character (`Formatter::write_char`: what `char`
+    /// arguments and fill characters go through)
+    FmtChars,
 }
-const OPS: [Op; 4] = [Op::WriteAll, Op::Write, Op::Fmt, Op::Vectored];
+
+struct Chars<'a>(&'a str);
+impl std::fmt::Display for Chars<'_> {
+    fn fmt(&self, f: &mut std::fmt::Formatter<'_>) -> std::fmt::Result {
+        use std::fmt::Write as _;
+        for c in self.0.chars() {
+            f.write_char(c)?;
+        }
+        Ok(())
+    }
+}
+const OPS: [Op; 5] = [Op::WriteAll, Op::Write, Op::Fmt, Op::Vectored, Op::FmtChars];
 
 fn apply(stream: &mut WinconStream<Console>, op: Op, chunk: &[u8]) -> io::Result<Option<usize>> {
     match op {
         Op::Flush => stream.flush().map(|_| None),
+        Op::FmtChars => match std::str::from_utf8(chunk) {
+            Ok(s) => write!(stream, "{}", Chars(s)).map(|_| None),
+            Err(_) => stream.write_all(chunk).map(|_| None),
+        },
         Op::WriteAll => stream.write_all(chunk).map(|_| None),
         Op::Write => stream.write(chunk).map(Some),
         Op::Fmt => match std::str::from_utf8(chunk) {
@@ -204,10 +222,10 @@ struct ConsoleSys {
 impl ConsoleSys {
     /// the last token of the alphabet is `flush()` (no bytes); the others are (operation, chunk) pairs
     fn tok(&self, t: usize) -> (Op, usize) {
-        if t == self.inner.tokens.len() * 4 {
+        if t == self.inner.tokens.len() * OPS.len() {
             return (Op::Flush, usize::MAX);
         }
-        (OPS[t % 4], t / 4)
+        (OPS[t % OPS.len()], t / OPS.len())
     }
     fn chunk(&self, c: usize) -> &[u8] {
         if c == usize::MAX {
@@ -224,7 +242,7 @@ impl System for ConsoleSys {
         "anstream::WinconStream/ops x tokens".into()
     }
     fn alphabet_len(&self) -> usize {
-        self.inner.tokens.len() * 4 + 1
+        self.inner.tokens.len() * OPS.len() + 1
     }
     fn token_label(&self, t: usize) -> String {
         let (op, c) = self.tok(t);
